@@ -309,3 +309,105 @@ Section Tree.
       destruct (is_on (val_at s (idx_of (map p_path A) (dir ++ g)))); cbn [negb andb]; reflexivity.
   Qed.
 End Tree.
+
+(* ======================================================================== *)
+(* C. the flat application, leaf by leaf                                       *)
+(* ======================================================================== *)
+Section PtInd.
+  Variable P : pt -> Prop.
+  Hypothesis Hleaf : forall nm arr d, P (PLeaf nm arr d).
+  Hypothesis Hsub : forall nm enum ptr sw sub, Forall P sub -> P (PSub nm enum ptr sw sub).
+  Fixpoint pt_ind2 (p : pt) : P p.
+  Proof.
+    destruct p as [nm arr d|nm enum ptr sw sub]; [apply Hleaf|]. apply Hsub.
+    exact ((fix go (l : list pt) : Forall P l :=
+              match l with
+              | [] => Forall_nil P
+              | x :: r => Forall_cons x (pt_ind2 x) (go r)
+              end) sub).
+  Defined.
+End PtInd.
+
+Lemma flat_pt_sub : forall ids dir hard soft nm enum ptr sw sub,
+  flat_pt ids dir hard soft (PSub nm enum ptr sw sub) =
+  flat_map (fun x => flat_tbl ids (dir ++ x) (hard ++ olist (option_map (fun g => dir ++ g) ptr))
+                              (soft ++ olist (option_map (fun g => dir ++ g) sw)) sub 0%nat)
+           (expand (sub_segs nm enum)).
+Proof.
+  intros. cbn [flat_pt]. apply flat_map_ext. intros x.
+  generalize 0%nat. induction sub as [|q r IH]; intros i; [reflexivity|].
+  cbn [flat_tbl]. rewrite <- IH. reflexivity.
+Qed.
+
+Lemma in_flat_tbl : forall l ids dir hard soft i f,
+  In f (flat_tbl ids dir hard soft l i) ->
+  exists j q, nth_error l j = Some q /\ In f (flat_pt (ids ++ [(i + j)%nat]) dir hard soft q).
+Proof.
+  induction l as [|q r IH]; intros ids dir hard soft i f H; [contradiction|].
+  cbn [flat_tbl] in H. apply in_app_or in H. destruct H as [H|H].
+  - exists O, q. rewrite Nat.add_0_r. split; [reflexivity | exact H].
+  - destruct (IH _ _ _ _ _ _ H) as (j & q' & E & Hin). exists (S j), q'. split; [exact E|].
+    replace (i + S j)%nat with (S i + j)%nat by lia. exact Hin.
+Qed.
+
+(* the address of element k, relative to the leaf's table *)
+Definition leaf_rel (nm : str) (arr : option nat) (k : nat) : str :=
+  match arr with Some _ => nm ++ dec (Z.of_nat k) | None => nm end.
+
+Lemma leaf_rel_expand : forall nm arr k,
+  (k < match arr with Some n => n | None => 1 end)%nat ->
+  In (leaf_rel nm arr k) (expand (leaf_segs nm arr)).
+Proof.
+  intros nm [n|] k Hk; cbn [leaf_segs leaf_rel expand].
+  - apply in_map. apply in_flat_map. exists k. split; [apply in_seq; rewrite Nat2Z.id; lia|].
+    cbn. left. rewrite app_nil_r. reflexivity.
+  - cbn. left. rewrite app_nil_r. reflexivity.
+Qed.
+
+Lemma elem_addr_leaf : forall dir nm arr d k,
+  elem_addr (leaf_port (dir ++ nm) arr d) k = dir ++ leaf_rel nm arr k.
+Proof.
+  intros dir nm [n|] d k; unfold elem_addr, leaf_rel; cbn [leaf_port p_array p_path is_some];
+    [rewrite app_assoc|]; reflexivity.
+Qed.
+
+(* every port of the flat application is a leaf of the tree: its index path, the
+   table it stands in, the switches above it *)
+Lemma flat_pt_descends : forall p ids dir hard soft f k,
+  In f (flat_pt ids dir hard soft p) -> (k < p_len (f_port f))%nat ->
+  exists rest a dirF extra nm arr d,
+    f_id f = ids ++ rest /\ f_port f = leaf_port (dirF ++ nm) arr d /\
+    f_hard f = hard ++ extra /\ dir ++ a = elem_addr (f_port f) k /\
+    forall tbl j, nth_error tbl j = Some p ->
+      descends tbl (j :: rest) dir a dirF extra nm arr d (leaf_rel nm arr k).
+Proof.
+  induction p as [nm arr d|nm enum ptr sw sub IHs] using pt_ind2; intros ids dir hard soft f k Hin Hk.
+  - cbn [flat_pt] in Hin. destruct Hin as [<-|[]]. cbn [f_port f_id f_hard] in *.
+    exists [], (leaf_rel nm arr k), dir, [], nm, arr, d.
+    rewrite !app_nil_r. repeat split; try reflexivity.
+    + rewrite elem_addr_leaf. reflexivity.
+    + intros tbl j E. cbn [descends]. rewrite E. repeat split; try reflexivity.
+      apply leaf_rel_expand. exact Hk.
+  - rewrite flat_pt_sub in Hin. apply in_flat_map in Hin. destruct Hin as (x & Hx & Hin).
+    destruct (in_flat_tbl _ _ _ _ _ _ _ Hin) as (j' & q & Eq & Hq). cbn [Nat.add] in Hq.
+    rewrite Forall_forall in IHs.
+    destruct (IHs q (nth_error_In _ _ Eq) _ _ _ _ f k Hq Hk) as (rest & a & dirF & extra & nm' & arr & d & Hid & Hp & Hh & Ha & Hd).
+    exists (j' :: rest), (x ++ a), dirF, (olist (option_map (fun g => dir ++ g) ptr) ++ extra), nm', arr, d.
+    split; [rewrite Hid, <- app_assoc; reflexivity|]. split; [exact Hp|].
+    split; [rewrite Hh, <- app_assoc; reflexivity|]. split; [rewrite <- Ha, <- app_assoc; reflexivity|].
+    intros tbl j E. cbn [descends]. rewrite E. exists x, a, extra. repeat split; try assumption.
+    apply Hd. exact Eq.
+Qed.
+
+Lemma flat_root_descends : forall t f k,
+  In f (flat_root t) -> (k < p_len (f_port f))%nat ->
+  exists a dirF nm arr d,
+    f_port f = leaf_port (dirF ++ nm) arr d /\ 47 :: a = elem_addr (f_port f) k /\
+    descends t (f_id f) [47] a dirF (f_hard f) nm arr d (leaf_rel nm arr k).
+Proof.
+  intros t f k Hin Hk. unfold flat_root in Hin.
+  destruct (in_flat_tbl _ _ _ _ _ _ _ Hin) as (j & q & Eq & Hq). cbn [Nat.add app] in Hq.
+  destruct (flat_pt_descends q _ _ _ _ f k Hq Hk) as (rest & a & dirF & extra & nm & arr & d & Hid & Hp & Hh & Ha & Hd).
+  exists a, dirF, nm, arr, d. split; [exact Hp|]. split; [exact Ha|].
+  rewrite Hid, Hh. cbn [app]. apply Hd. exact Eq.
+Qed.
